@@ -81,10 +81,13 @@ def ltKey (ps : List Param) (tbl : List RunEntry) (e : Elem) (k : Nat) : List Na
 def ltKeys (ps : List Param) (e : Elem) : List (List Nat) :=
   (keyIdx (lexTable ps) ps.length).map (ltKey ps (lexTable ps) e)
 
-/-- the fold of `lexicographical_compare`: the first key that differs decides -/
-def keysLt : List (List Nat) → List (List Nat) → Bool
-  | a :: as, b :: bs => if lexLt a b then true else if lexLt b a then false else keysLt as bs
+/-- the fold `(lexicographical_compare_one<I>(lhs, rhs) && ...)`: *every* key must compare less -/
+def allLt : List (List Nat) → List (List Nat) → Bool
+  | [], [] => true
+  | a :: as, b :: bs => lexLt a b && allLt as bs
   | _, _ => false
+
+def keysLt (a b : List (List Nat)) : Bool := !a.isEmpty && allLt a b
 
 /-- `reference < reference` -/
 def elemLt (ps : List Param) (a b : Elem) : Bool := keysLt (ltKeys ps a) (ltKeys ps b)
